@@ -42,3 +42,11 @@ Inductive Ordering := std_cmp_Ordering_Less | std_cmp_Ordering_Equal | std_cmp_O
 Definition nat_cmp (a b : nat) : Ordering := match Nat.compare a b with Lt => std_cmp_Ordering_Less | Eq => std_cmp_Ordering_Equal | Gt => std_cmp_Ordering_Greater end.
 Definition str_contains (s : list ascii) (c : ascii) : bool := existsb (Ascii.eqb c) s.
 Fixpoint str_count (s : list ascii) (c : ascii) : nat := match s with nil => 0 | x :: r => (if Ascii.eqb x c then 1 else 0) + str_count r c end.
+
+(* Context::should_format_node (src/context.rs): the verdict, the range, a node's byte positions.
+   The scan of the leading comments for `stylua: ignore` is a `for` loop: rs2v turns it into the oracle parameter
+   for_loop_1 (Some r: the loop returned r; None: it fell through); the C08 harness ties that scan. *)
+Inductive FormatNode := FormatNode_Skip | FormatNode_NotInRange | FormatNode_Normal.
+Record FormatRange := { start : option nat; end_ : option nat }.
+Record Position := { bytes : nat }.
+Record NodePos := { start_position : option Position; end_position : option Position }.
